@@ -10,108 +10,67 @@ open Scc
 
 variable {q : Core.Prog} {p : Fun.CheckedProgram}
 
-abbrev R (q : Core.Prog) : Fun.State → Core.State → Prop := SRel GP q
+abbrev R (p : Fun.CheckedProgram) (q : Core.Prog) : Fun.State → Core.State → Prop := SRel (GP p) q
 
-/-! ## free names of direct terms -/
+/-- the Core program declares the translated codata types of the source program -/
+def CodOK (p : Fun.CheckedProgram) (q : Core.Prog) : Prop :=
+  ∀ τ : Fun.Ty, Core.isCodata q.codataTypes (compileTy τ) = Fun.isCodataTy p τ
 
-theorem d_fv_tfv : ∀ (t : Fun.Term), pureD t = true → ∀ (ty : Core.Ty) (st : CompileState)
-    (P : Core.Term) (st' : CompileState), compile t ty st = .ok (P, st') →
-    ∀ y ∈ fv t, ∃ b ∈ tfvTerm P [], b.var = ⟨y, 0⟩
-  | .paren t, hd, ty, st, P, st', hc, y, hy => by
-    simp only [pureD] at hd
-    rw [c_paren] at hc
-    simp only [fv] at hy
-    exact d_fv_tfv t hd _ _ _ _ hc y hy
-  | .op a o b, hd, ty, st, P, st', hc, y, hy => by
-    simp only [pureD, Bool.and_eq_true] at hd
-    rw [c_op] at hc
-    cases hca : compile a .i64 st with
-    | error e => simp [hca] at hc
-    | ok ra =>
-      obtain ⟨A, st1⟩ := ra
-      cases hcb : compile b .i64 st1 with
-      | error e => simp [hca, hcb] at hc
-      | ok rb =>
-        obtain ⟨B, st2⟩ := rb
-        simp only [hca, hcb, Except.ok.injEq, Prod.mk.injEq] at hc
-        obtain ⟨rfl, _⟩ := hc
-        simp only [fv, List.mem_append] at hy
-        rcases hy with hy | hy
-        · obtain ⟨bb, h1, h2⟩ := fo_fv_tfv a hd.1 _ _ _ _ hca y hy
-          exact ⟨bb, mem_tfv_op.2 (.inl h1), h2⟩
-        · obtain ⟨bb, h1, h2⟩ := fo_fv_tfv b hd.2 _ _ _ _ hcb y hy
-          exact ⟨bb, mem_tfv_op.2 (.inr h1), h2⟩
-  | .var x vty chi, _, ty, st, P, st', hc, y, hy => fo_fv_tfv _ rfl _ _ _ _ hc y hy
-  | .lit k, _, ty, st, P, st', hc, y, hy => fo_fv_tfv _ rfl _ _ _ _ hc y hy
-  | .ctor c as cty, hd, ty, st, P, st', hc, y, hy =>
-    fo_fv_tfv _ (by simpa [pureFO, pureD] using hd) _ _ _ _ hc y hy
-  | .ifc .., h, _, _, _, _, _, _, _ => by simp [pureD] at h
-  | .ifz .., h, _, _, _, _, _, _, _ => by simp [pureD] at h
-  | .print .., h, _, _, _, _, _, _, _ => by simp [pureD] at h
-  | .letIn .., h, _, _, _, _, _, _, _ => by simp [pureD] at h
-  | .call .., h, _, _, _, _, _, _, _ => by simp [pureD] at h
-  | .dtor .., h, _, _, _, _, _, _, _ => by simp [pureD] at h
-  | .case .., h, _, _, _, _, _, _, _ => by simp [pureD] at h
-  | .new .., h, _, _, _, _, _, _, _ => by simp [pureD] at h
-  | .label .., h, _, _, _, _, _, _, _ => by simp [pureD] at h
-  | .goto .., h, _, _, _, _, _, _, _ => by simp [pureD] at h
-  | .exit .., h, _, _, _, _, _, _, _ => by simp [pureD] at h
+theorem isCodata_i64 (q : Core.Prog) : Core.isCodata q.codataTypes .i64 = false := rfl
 
-/-- the relation of environments holds for any Core environment that agrees with the ideal one on
-bindings covering the names -/
-theorem EnvRel.actual {G : Fun.Term → Prop} {n : Nat} {xs : List String} {env : Fun.Env}
-    {ρ0 ρ : CEnv} (he : EnvRel G q n xs env ρ0) (bs : List Core.Binding) (hag : AgreeOn bs ρ0 ρ)
-    (hfv : ∀ y ∈ xs, ∃ b ∈ bs, b.var = ⟨y, 0⟩) : EnvRel G q n xs env ρ :=
-  he.agree fun y hy => by
-    obtain ⟨b, hb, e⟩ := hfv y hy
-    have := hag b hb
-    rw [e] at this
-    exact this
+theorem CodOK.ncd {p : Fun.CheckedProgram} {q : Core.Prog} (h : CodOK p q) {ty : Option Fun.Ty}
+    (hn : ncdO p ty = true) : ∃ τ, ty = some τ ∧ Core.isCodata q.codataTypes (compileTy τ) = false := by
+  cases ty with
+  | none => simp [ncdO] at hn
+  | some τ => exact ⟨τ, rfl, by rw [h τ]; simpa [ncdO] using hn⟩
 
 /-! ## the three kinds of operands -/
 
 section
-variable (hq : q.codataTypes = []) (hp : p.codataTypes = [])
+variable (hcod : CodOK p q)
   {env : Fun.Env} {K : Fun.Stack} {ρ0 ρ : CEnv} {n : Nat} {out : Out} (Sx : Core.Term → Core.Stmt)
   (hsp : ∀ A, A.isVar = false → (Sx A).split = some (.prd, A, Sx))
-  (hK : ∀ τ, KRel GP q (n + 1) K
+  (hK : ∀ τ, KRel (GP p) q (n + 1) K
     (.mutilde ρ (Core.sigmaName n) (Sx (.var .prd (Core.sigmaName n) τ))))
   (hF : ∀ ρ' n' z τ v V, n ≤ n' → SigExt n ρ ρ' → Core.Env.lookup ρ' z = .ok V →
-    VRel GP q n v V → (z.name = sig → z.id < n') →
-    Chunk p q (R q) true (.ret v K) ⟨Sx (.var .prd z τ), ρ', out, n'⟩)
-include hq hsp
+    VRel (GP p) q n v V → (z.name = sig → z.id < n') →
+    Chunk p q (R p q) true (.ret v K) ⟨Sx (.var .prd z τ), ρ', out, n'⟩)
+include hsp
 
 /-- a direct producer in operand position -/
-theorem operand_direct {b : Fun.Term} (hd : pureD b = true) {ty0 : Core.Ty} {st : CompileState}
+theorem operand_direct {b : Fun.Term} (hd : pureD p (goodClauses p) b = true) {ty0 : Core.Ty}
+    {st : CompileState}
     {B : Core.Term} {st' : CompileState} (hcB : compile b ty0 st = .ok (B, st'))
-    (htn : TermNames b st) (he : EnvRel GP q n (fv b) env ρ0) (hag : AgreeOn (tfvTerm B []) ρ0 ρ)
-    (hp : p.codataTypes = [])
+    (hst : StOK q st') (htn : TermNames b st) (he : EnvRel (GP p) q n (fv b) env ρ0)
+    (hbd : BoundOn (tfvTerm B []) ρ0) (hag : AgreeOn (tfvTerm B []) ρ0 ρ)
+    (hncB : Core.isCodata q.codataTypes B.ty = false)
     (hF : ∀ ρ' n' z τ v V, n ≤ n' → SigExt n ρ ρ' → Core.Env.lookup ρ' z = .ok V →
-      VRel GP q n v V → (z.name = sig → z.id < n') →
-      Chunk p q (R q) true (.ret v K) ⟨Sx (.var .prd z τ), ρ', out, n'⟩) :
-    Chunk p q (R q) false (.eval b env K) ⟨Sx B, ρ, out, n⟩ := by
-  have hea : EnvRel GP q n (fv b) env ρ := he.actual _ hag (d_fv_tfv b hd _ _ _ _ hcB)
-  rcases direct_sim (p := p) hq hp b hd env K ty0 st B st' n ρ n hcB hea htn.fv_ne_sig with
+      VRel (GP p) q n v V → (z.name = sig → z.id < n') →
+      Chunk p q (R p q) true (.ret v K) ⟨Sx (.var .prd z τ), ρ', out, n'⟩) :
+    Chunk p q (R p q) false (.eval b env K) ⟨Sx B, ρ, out, n⟩ := by
+  rcases direct_sim (p := p) (goodClauses p) (goodClauses_find p) b hd env K ty0 st B st' n ρ0 ρ n
+      hcB hst htn he hbd hag with
     ⟨v, j, hj, fj, hv⟩ | ⟨j, s1, w, fj, h1, h2⟩ | ⟨j, s1, w, r', fj, h1, h2, h3, _, h5⟩
   · obtain ⟨i, ρ', n', z, τ, V, hc, hn, hext, hl, hvr, hb⟩ :=
-      core_operand' hq hv Sx out (hsp B)
+      core_operand' hv Sx out (hsp B)
     exact Chunk.prefix fj hc rfl (fun _ => hj) (hF ρ' n' z τ v V hn hext hl hvr hb).weaken
   · exact .inl ⟨j, s1, .stuck w, fj, by rw [h1]; rfl, fun hf => absurd hf (bad_not_finished h2)⟩
   · refine .inl ⟨j, s1, .stuck w, fj, by rw [h1]; rfl, fun _ => ?_⟩
     have s1' := step_sigma (q := q) (st := ⟨Sx B, ρ, out, n⟩) (hsp B h3)
     simp only [Core.sigmaCut] at s1'
-    obtain ⟨i, S1, hc, ho, hs⟩ := h5 _ B.ty out (mu_inert (Core.sigmaName n) B.ty _)
+    obtain ⟨i, S1, hc, ho, hs⟩ := h5 _ B.ty out (mu_inert (Core.sigmaName n) B.ty _) hncB
     exact ⟨1 + i, S1, r', (CSteps.one s1').trans hc, ho, hs, h2⟩
 
 /-- a term translated by the default body of `compile` (`μa.⟦b⟧_a`) in operand position -/
-theorem operand_default {b : Fun.Term} (hg : good b = true) {ty0 : Core.Ty} {st : CompileState}
+theorem operand_default {b : Fun.Term} (hg : good p b = true) {ty0 : Core.Ty} {st : CompileState}
     {B : Core.Term} {st' : CompileState} (hcB : compile b ty0 st = .ok (B, st'))
     (hdef : compile b ty0 st = defaultCompile (compileWithCont b) ty0 st)
-    (hst : StOK q st') (htn : TermNames b st) (he : EnvRel GP q n (fv b) env ρ0)
+    (hnc0 : Core.isCodata q.codataTypes ty0 = false)
+    (hst : StOK q st') (htn : TermNames b st) (he : EnvRel (GP p) q n (fv b) env ρ0)
     (hbd : BoundOn (tfvTerm B []) ρ0) (hag : AgreeOn (tfvTerm B []) ρ0 ρ)
-    (hK : ∀ τ, KRel GP q (n + 1) K
+    (hK : ∀ τ, KRel (GP p) q (n + 1) K
       (.mutilde ρ (Core.sigmaName n) (Sx (.var .prd (Core.sigmaName n) τ)))) :
-    Chunk p q (R q) false (.eval b env K) ⟨Sx B, ρ, out, n⟩ := by
+    Chunk p q (R p q) false (.eval b env K) ⟨Sx B, ρ, out, n⟩ := by
   rw [hdef, defaultCompile_eq] at hcB
   cases hx : compileWithCont b (.var .cns ⟨(freshCovar st).1, 0⟩ ty0) (freshCovar st).2 with
   | error e => simp [hx] at hcB
@@ -123,7 +82,7 @@ theorem operand_default {b : Fun.Term} (hg : good b = true) {ty0 : Core.Ty} {st 
     have s1 := step_sigma (q := q) (st := ⟨Sx (.mu .prd ⟨(freshCovar st).1, 0⟩ ty0 s), ρ, out, n⟩)
       (hsp _ rfl)
     simp only [Core.sigmaCut, Core.Term.ty] at s1
-    have s2 := step_cut_mu (q := q) hq (cty := ty0) (ty := ty0) (a := ⟨(freshCovar st).1, 0⟩) (s := s)
+    have s2 := step_cut_mu (q := q) (cty := ty0) (ty := ty0) hnc0 (a := ⟨(freshCovar st).1, 0⟩) (s := s)
       (ρ := ρ) (out := out) (n := n + 1)
       (mu_inert (Core.sigmaName n) ty0 (Sx (.var .prd (Core.sigmaName n) ty0))) rfl .prd
     have ha_fresh := freshCovar_not_mem st
@@ -149,7 +108,7 @@ theorem operand_default {b : Fun.Term} (hg : good b = true) {ty0 : Core.Ty} {st 
       exact ha_fresh (this ▸ htn.fv y hy)
     · exact .mk (cv := .mutilde ρ (Core.sigmaName n) (Sx (.var .prd (Core.sigmaName n) ty0)))
         (by simp [Core.cnsVal, lookup_cons]) (hK ty0) trivial
-        (fun b hb => by rw [mem_tfv_var] at hb; subst hb; exact ⟨_, lookup_cons_self _ _ _⟩)
+        (fun b hb => by rw [mem_tfv_var] at hb; subst hb; exact ⟨_, lookup_cons_self _ _ _⟩) hnc0
     · exact BoundOn.cons (hbd.mono fun y hy => by
         obtain ⟨h1, h2⟩ := List.mem_filter.1 hy
         exact mem_tfv_mu_of h1 (by simpa using h2))
@@ -158,19 +117,22 @@ theorem operand_default {b : Fun.Term} (hg : good b = true) {ty0 : Core.Ty} {st 
         exact mem_tfv_mu_of h1 (by simpa using h2))
 
 /-- a `label` in operand position -/
-theorem operand_label {a : String} {t : Fun.Term} {lty : Option Fun.Ty}
-    (hg : good (.label a t lty) = true) {ty0 : Core.Ty} {st : CompileState}
+theorem operand_label (hcod : CodOK p q) {a : String} {t : Fun.Term} {lty : Option Fun.Ty}
+    (hg : good p (.label a t lty) = true) {ty0 : Core.Ty} {st : CompileState}
     {B : Core.Term} {st' : CompileState} (hcB : compile (.label a t lty) ty0 st = .ok (B, st'))
     (hst : StOK q st') (htn : TermNames (.label a t lty) st)
-    (he : EnvRel GP q n (fv (.label a t lty)) env ρ0)
+    (he : EnvRel (GP p) q n (fv (.label a t lty)) env ρ0)
     (hbd : BoundOn (tfvTerm B []) ρ0) (hag : AgreeOn (tfvTerm B []) ρ0 ρ)
-    (hK : ∀ τ, KRel GP q (n + 1) K
+    (hK : ∀ τ, KRel (GP p) q (n + 1) K
       (.mutilde ρ (Core.sigmaName n) (Sx (.var .prd (Core.sigmaName n) τ)))) :
-    Chunk p q (R q) false (.eval (.label a t lty) env K) ⟨Sx B, ρ, out, n⟩ := by
+    Chunk p q (R p q) false (.eval (.label a t lty) env K) ⟨Sx B, ρ, out, n⟩ := by
   rw [c_label] at hcB
-  cases lty with
-  | none => simp at hcB
-  | some τ =>
+  simp only [good, Bool.and_eq_true] at hg
+  obtain ⟨hgt, hncd⟩ := hg
+  obtain ⟨τ, rfl, hnc⟩ := hcod.ncd hncd
+  have hlty : True := trivial
+  cases hlty with
+  | intro =>
     simp only at hcB
     cases hx : compileWithCont t (.var .cns ⟨a, 0⟩ (compileTy τ)) st with
     | error e => simp [hx] at hcB
@@ -181,7 +143,7 @@ theorem operand_label {a : String} {t : Fun.Term} {lty : Option Fun.Ty}
       have s1 := step_sigma (q := q) (st := ⟨Sx (.mu .prd ⟨a, 0⟩ (compileTy τ) s), ρ, out, n⟩)
         (hsp _ rfl)
       simp only [Core.sigmaCut, Core.Term.ty] at s1
-      have s2 := step_cut_mu (q := q) hq (cty := compileTy τ) (ty := compileTy τ) (a := ⟨a, 0⟩) (s := s)
+      have s2 := step_cut_mu (q := q) (cty := compileTy τ) (ty := compileTy τ) hnc (a := ⟨a, 0⟩) (s := s)
         (ρ := ρ) (out := out) (n := n + 1)
         (mu_inert (Core.sigmaName n) (compileTy τ) (Sx (.var .prd (Core.sigmaName n) (compileTy τ))))
         rfl .prd
@@ -194,7 +156,7 @@ theorem operand_label {a : String} {t : Fun.Term} {lty : Option Fun.Ty}
       refine SRel.eval (c := .var .cns ⟨a, 0⟩ (compileTy τ))
         (ρ0 := (⟨a, 0⟩, .mutilde ρ (Core.sigmaName n)
           (Sx (.var .prd (Core.sigmaName n) (compileTy τ)))) :: ρ0)
-        (by simpa [good] using hg) ?_ ?_ ?_ ?_ ?_
+        hgt ?_ ?_ ?_ ?_ ?_
       · refine ⟨st, st1, hx, hst, ⟨fun x hx => ?_, fun x hx => ?_, htn.nosig⟩, ?_⟩
         · by_cases hxa : x = a
           · exact hxa ▸ ha_used
@@ -208,7 +170,7 @@ theorem operand_label {a : String} {t : Fun.Term} {lty : Option Fun.Ty}
       · exact .mk (cv := .mutilde ρ (Core.sigmaName n)
           (Sx (.var .prd (Core.sigmaName n) (compileTy τ))))
           (by simp [Core.cnsVal, lookup_cons]) (hK _) trivial
-          (fun b hb => by rw [mem_tfv_var] at hb; subst hb; exact ⟨_, lookup_cons_self _ _ _⟩)
+          (fun b hb => by rw [mem_tfv_var] at hb; subst hb; exact ⟨_, lookup_cons_self _ _ _⟩) hnc
       · exact BoundOn.cons (hbd.mono fun y hy => by
           obtain ⟨h1, h2⟩ := List.mem_filter.1 hy
           exact mem_tfv_mu_of h1 (by simpa using h2))
